@@ -127,8 +127,10 @@ class ScipyStubs:
         if h.mode == "conc" and not replaying(h, "root"):
             h.nfresh += 2 if self.nondet_converged else 1
             try:
-                return _so.root_scalar(f, args=args, method=method, bracket=bracket, x0=x0, x1=x1,
-                                       xtol=xtol, rtol=rtol, **kw)
+                res = _so.root_scalar(f, args=args, method=method, bracket=bracket, x0=x0, x1=x1,
+                                      xtol=xtol, rtol=rtol, **kw)
+                self.last_root = res.root
+                return res
             except ValueError:
                 if self.bad_bracket == "raise":
                     raise
